@@ -93,6 +93,51 @@ type blk struct {
 	m      set    // accepted integers (bit = integer - base)
 	get    func(n int, rev bool) []int64
 	iterAt func(s int, pos, n int, rev bool) (cnt int, out []int64) // low-level Iter into a slice of s elements
+	// result slices exactly as GetN / RGetN returned them (not copied) with a copy taken at
+	// once: a result the caller keeps must not change when the block is iterated again
+	h64 []held64
+	h32 []held32
+}
+
+type held64 struct{ s, cp []int64 }
+type held32 struct{ s, cp []uint32 }
+
+func (b *blk) hold64(s []int64) []int64 {
+	if len(b.h64) < 16 && len(s) > 0 {
+		b.h64 = append(b.h64, held64{s, append([]int64(nil), s...)})
+	}
+	return s
+}
+
+func (b *blk) hold32(s []uint32) []uint32 {
+	if len(b.h32) < 16 && len(s) > 0 {
+		b.h32 = append(b.h32, held32{s, append([]uint32(nil), s...)})
+	}
+	return s
+}
+
+// heldIntact re-reads every kept result.
+func (b *blk) heldIntact(k *engine.Case, when string) bool {
+	for i, h := range b.h64 {
+		if !eq64(h.s, h.cp) {
+			k.Logf("  %s: kept result #%d was %v and now reads %v", when, i, h.cp, h.s)
+			fail(k, b.t+"-retained-result-changed", "%s block base=%d members=%s: a slice returned by GetN/RGetN earlier (%s) reads %s %s", b.t, b.base, &b.m, show64(h.cp), show64(h.s), when)
+			return false
+		}
+	}
+	for i, h := range b.h32 {
+		same := len(h.s) == len(h.cp)
+		for j := 0; same && j < len(h.s); j++ {
+			same = h.s[j] == h.cp[j]
+		}
+		if !same {
+			k.Logf("  %s: kept result #%d was %v and now reads %v", when, i, h.cp, h.s)
+			fail(k, b.t+"-retained-result-changed", "%s block base=%d members=%s: a slice returned by GetN/RGetN earlier (%v) reads %v %s", b.t, b.base, &b.m, h.cp, h.s, when)
+			return false
+		}
+	}
+	k.Count(b.t+".retained_results_checked", int64(len(b.h64)+len(b.h32)))
+	return true
 }
 
 func (b *blk) expect(n int, rev bool) []int64 {
@@ -155,6 +200,9 @@ func (b *blk) checkIter(k *engine.Case, what string, n int, rev, lowLevel bool, 
 	if p != nil {
 		k.Logf("  %s: %s iteration n=%d of block base=%d members=%s PANIC %v", what, dirName(rev), n, b.base, &b.m, p)
 		fail(k, "panic", "%s: %s iteration (n=%d, lowLevel=%v, pos=%d) of block base=%d members=%s panicked: %v", b.t, dirName(rev), n, lowLevel, pos, b.base, &b.m, p)
+		return false
+	}
+	if !b.heldIntact(k, "after "+call) {
 		return false
 	}
 	want := b.expect(n, rev)
@@ -408,9 +456,9 @@ func bigOne(k *engine.Case) {
 	b.m.add(int(v & 1023))
 	b.get = func(n int, rev bool) []int64 {
 		if rev {
-			return x.RGetNAsI64(n)
+			return b.hold64(x.RGetNAsI64(n))
 		}
-		return x.GetNAsI64(n)
+		return b.hold64(x.GetNAsI64(n))
 	}
 	b.iterAt = func(sz, pos, n int, rev bool) (int, []int64) {
 		s := make([]int64, sz)
@@ -544,9 +592,9 @@ func tipOne(k *engine.Case) {
 	b.m.add(int(v & 1023))
 	b.get = func(n int, rev bool) []int64 {
 		if rev {
-			return to64(x.RGetNAsU32(n))
+			return to64(b.hold32(x.RGetNAsU32(n)))
 		}
-		return to64(x.GetNAsU32(n))
+		return to64(b.hold32(x.GetNAsU32(n)))
 	}
 	b.iterAt = func(sz, pos, n int, rev bool) (int, []int64) {
 		s := make([]uint32, sz)
